@@ -68,6 +68,12 @@ class DiskImageContentExtractor(DiskImageWorker):
                 ):
                     # a file named like the archive, extracted onto it
                     raise ValueError(f"would.overwrite.the.archive:{targetPath}")
+                if os.path.islink(targetPath) or (
+                    os.path.isfile(targetPath) and os.stat(targetPath).st_nlink > 1
+                ):
+                    # a link left at the destination : the extracted file replaces it,
+                    # it is not written through it (that would alter a file elsewhere)
+                    os.unlink(targetPath)
                 data = controller.readFile(entry)
                 with open(targetPath, "wb") as outf:
                     outf.write(data)
